@@ -141,4 +141,12 @@ PROPS = {
         need_events=["accepted", "rejected"],
         assumptions=TRUST + ["the default dictionary is the local dictionary; a refused CER may carry any result code whose cause applies (5017 in-band security required, 5010 no common application, 5012 identity missing)"],
     ),
+    "C10": dict(
+        level="exploration",
+        rule="server role: a StateMachine as Server.Handler with application handlers registered by short name (ACR), by index ({4,272,request}) and as catch-all (by name or by ALL_CMD_INDEX) plus attempted registrations for CER/CEA/DWR by name and by index; a scripted peer sends every sequence of length 1..4 (thorough 1..5) over {acceptable CER, rejected CER, retransmitted CER, DWR, request of application A, request of application B, answer, unregistered command}, each message by message with quiescence in between and as one segment, then random sequences of length 5..30; client role: sm.Client.NewConn against a peer that answers the CER with every sequence of length 1..4 over {success CEA, failure CEA, requests, answer, unregistered, DWR} with at most one CEA. The handler-invocation log must equal what a 3-state reference gate (pre / ok / closed) allows, handler for handler; refused registrations never fire; CEA/DWA still appear on the transport. distinct_nontrivial counts distinct (role, length, first message, delivery mode) classes.",
+        runs=dict(quick=[race("TestC10", 12)], thorough=[race("TestC10", 16, 6000)]),
+        floor=dict(quick=9000, thorough=100000),
+        need_events=["server_sequences", "client_sequences", "app_invocations", "gated_messages"],
+        assumptions=TRUST + ["the reference gate: pre --acceptable CER--> ok, pre --rejected CER--> closed; only in ok does an application message cause exactly one invocation of the handler the dispatch rule of C09 selects"],
+    ),
 }
